@@ -728,6 +728,32 @@ func reuse(c *seq.Ctx) {
 // wrappers with their own buffering, short reads, data-with-error, limits, concatenation), for every
 // stream-readable item and for string / raw fields on both sides of the wrappers' buffer sizes (16,
 // 4096) and of 64 KiB, complete and cut short - it must agree with the buffer reader on the same bytes.
+// sparseReader delivers one byte per call and answers (0, nil) - legal for an io.Reader, "nothing yet" -
+// before every `every`-th byte; it always makes progress eventually.
+type sparseReader struct {
+	data  []byte
+	every int
+	pos   int
+	gave  bool
+}
+
+func (s *sparseReader) Read(p []byte) (int, error) {
+	if len(p) == 0 {
+		return 0, nil
+	}
+	if s.pos >= len(s.data) {
+		return 0, io.EOF
+	}
+	if s.pos%s.every == 0 && !s.gave {
+		s.gave = true
+		return 0, nil
+	}
+	s.gave = false
+	p[0] = s.data[s.pos]
+	s.pos++
+	return 1, nil
+}
+
 func readerKinds(c *seq.Ctx, its []item) {
 	type wrap struct {
 		name string
@@ -748,6 +774,8 @@ func readerKinds(c *seq.Ctx, its []item) {
 		{"io.MultiReader", func(in []byte) io.Reader {
 			return io.MultiReader(bytes.NewReader(in[:len(in)/2]), bytes.NewReader(nil), bytes.NewReader(in[len(in)/2:]))
 		}},
+		{"empty read before every byte", func(in []byte) io.Reader { return &sparseReader{data: in, every: 1} }},
+		{"empty read before every third byte", func(in []byte) io.Reader { return &sparseReader{data: in, every: 3} }},
 		{"bufio.ReadWriter", func(in []byte) io.Reader {
 			return bufio.NewReadWriter(bufio.NewReaderSize(bytes.NewReader(in), 32), bufio.NewWriter(io.Discard))
 		}},
@@ -811,7 +839,7 @@ func readerKinds(c *seq.Ctx, its []item) {
 
 func main() {
 	r := ev.Start("C10")
-	r.Rule("round trip: every sequence of typed writes (length <= L over ~95 boundary-valued items) read back through the writing buffer, a fresh readable buffer and the stream reader; hostile: every reader method on all byte strings up to a length over {00,01,7f,80,ff}, every truncation of every valid encoding, oversized varints/length prefixes, against reference decoders; fragmentation: every composition (chunking) of inputs up to a length with both legal end-of-stream styles, stream reader vs buffer reader; reader kinds: every stream-readable item and string/raw fields of 0..70000 bytes (both sides of 16, 4096 and 64 KiB), complete and cut short, through ReaderX over 11 kinds of source (bytes/strings readers, bufio with 16/32/default buffers, one-byte, half, data-with-error, limit, multi) against BufferX; reuse: every constructor x message sizes around every allocation threshold up to 1 MiB x three ways of filling x 0/1/all bytes consumed, Reset, emptiness, next message round trip, two cycles; distinct = outcome classes (family, kind, ok/error)")
+	r.Rule("round trip: every sequence of typed writes (length <= L over ~95 boundary-valued items) read back through the writing buffer, a fresh readable buffer and the stream reader; hostile: every reader method on all byte strings up to a length over {00,01,7f,80,ff}, every truncation of every valid encoding, oversized varints/length prefixes, against reference decoders; fragmentation: every composition (chunking) of inputs up to a length with both legal end-of-stream styles, stream reader vs buffer reader; reader kinds: every stream-readable item and string/raw fields of 0..70000 bytes (both sides of 16, 4096 and 64 KiB), complete and cut short, through ReaderX over 13 kinds of source (incl. sources that answer (0,nil) between bytes) (bytes/strings readers, bufio with 16/32/default buffers, one-byte, half, data-with-error, limit, multi) against BufferX; reuse: every constructor x message sizes around every allocation threshold up to 1 MiB x three ways of filling x 0/1/all bytes consumed, Reset, emptiness, next message round trip, two cycles; distinct = outcome classes (family, kind, ok/error)")
 	r.Assume("reference decoders: little-endian fixed width, encoding/binary varints, u32 length prefix", "an io.Reader may return fewer bytes than asked and may return (n, io.EOF) with the last bytes")
 	its := items()
 	L := r.Pick(3, 4)
